@@ -29,12 +29,12 @@ type Reader struct {
 	Yield       func() // scheduler hook, called at every read
 	Clock       *uint64
 
-	Pos        int
-	Reads      int
-	EmptyPolls int
-	MaxRead    int // largest len(p) seen
-	Stuck      bool
-	eofSent    bool
+	Pos           int
+	Reads         int
+	EmptyPolls    int
+	MaxRead       int // largest len(p) seen
+	Stuck         bool
+	eofSent       bool
 	ReadsAfterEOF int
 }
 
@@ -102,9 +102,9 @@ type Writer struct {
 	// FailCount selects the byte count a failing write reports together with
 	// its error (all legal for an io.Writer): 0 -> 0, 1 -> len(p), 2 -> len(p)/2.
 	FailCount int
-	Failed    int // number of failed writes delivered
-	Yield    func() // called before p is consumed (a blocked writer)
-	Clock    *uint64
+	Failed    int    // number of failed writes delivered
+	Yield     func() // called before p is consumed (a blocked writer)
+	Clock     *uint64
 	KeepSizes bool
 }
 
